@@ -399,6 +399,9 @@ func c18FullLAN(c *wk.Ctx, idx int64, nt dhcpNet, scratch string) {
 		}
 		xid := [4]byte{0xfa, byte(k >> 8), byte(k), 1}
 		host := refdec.DHCPOpt{Code: 12, Data: []byte(fmt.Sprintf("station-%04d", k))}
+		if k%5 == 3 {
+			host.Data = []byte(fmt.Sprintf("%s-%d", dhcpHostNames[3+k/5%(len(dhcpHostNames)-3)], k))
+		}
 		off := exchange(h, cl, refdec.DHCPMsg{Op: 1, HType: 1, HLen: 6, XID: xid, Options: []refdec.DHCPOpt{{Code: 53, Data: []byte{1}}, host}}, ip4zero)
 		if len(off) != 1 || off[0].Type() != refdec.DHCPOffer {
 			break // pool exhausted: the clients so far are the population
